@@ -15,7 +15,7 @@ def check(ctx):
     F = ctx.facts("prod")
     ctx.clause("R-TABLE From<serde_json::Value> / From<&serde_json::Value>: same-named variants")
     ctx.clause("R-TABLE Serialize for JValue: per-variant serializer method")
-    ctx.clause("R-TABLE Deserialize visitor: per-visit method variant")
+    ctx.clause("R-TABLE Deserialize visitor: per-visit method variant; R-FLOW scalar visitors pass the visited value through unchanged")
     ctx.clause("cast census in from.rs / partial_eq.rs")
 
     froms = [f for f in F.impl_fns("convert::From", "JValue", "from") if "serde_json::value::Value" in (F.impl_of(f).get("trait") or "") and F.impl_of(f)["self"].endswith("::JValue")]
@@ -77,6 +77,14 @@ def check(ctx):
             continue
         built = {s["rv"]["variant"] for bi, si, s in f.stmts() if s["rv"]["k"] == "agg" and s["rv"].get("kind") == "adt" and s["rv"]["adt"].endswith("value::JValue")}
         ctx.require(built == {v}, "R-TABLE", "de:" + m, "%s builds JValue::%s" % (m, v), "%s builds %s, expected only %s" % (m, sorted(built), v))
+        if m in ("visit_bool", "visit_i64", "visit_u64", "visit_str"):
+            # the payload is the visited value itself (only value-preserving conversions such as Into/From applied):
+            # no cast, arithmetic, slicing or other call may sit between the visitor argument and the variant payload
+            e = Prov(f).local(0)
+            pay = [x[3].get("0") for x in walk(e) if x[0] == "agg" and x[1].endswith("value::JValue") and x[2] == v]
+            ok = len(pay) == 1 and pay[0] is not None and pay[0][0] == "param" and pay[0][2] == 2
+            ctx.require(ok, "R-FLOW", "de-payload:" + m, "%s: payload is the visited value unchanged" % m,
+                        "%s builds JValue::%s from `%s`, expected the visited value itself (value-preserving conversion only)" % (m, v, show(pay[0]) if pay and pay[0] else None))
     f = vis.get("visit_f64")
     if f is not None:
         names = [c.path for c in f.calls]
